@@ -1,8 +1,9 @@
 """C02 -- Deb822 paragraphs survive dump and re-parse, whatever the input form."""
 import ast
+import re
 
 from .. import rx, strlang, cfg
-from .. import paths
+from .. import paths, normalize
 from ..core import AnalysisError, norm, walk_no_nested
 from ..strlang import Cat, Lit, Slot, Star
 from .deb822model import Model, KEY_RE
@@ -227,39 +228,118 @@ def r2_normalisation(rep, src, M):
         else:
             rep.fail('C02.R2', site, 'str and bytes text are split into lines',
                      'whole-text input of type %s is iterated character-wise instead of line-wise' % sorted({'str', 'bytes'} - kinds), where=g.where)
-    # split_gpg_and_payload: every payload line is stripped of CR/LF and str lines are encoded
+    # split_gpg_and_payload: every payload line is stripped of CR/LF and str lines are encoded -- decided on the paths of the
+    # loop body with locals substituted away (conditional expressions, flags and guard clauses give the same literals)
     g = src.func('deb822:Deb822.split_gpg_and_payload')
     rep.saw_func(g)
-    G = cfg.CFG(g.node)
-    apps = [c for c in ast.walk(g.node) if isinstance(c, ast.Call) and norm(c.func) == 'lines.append']
-    strips = [n for n in G.stmts() if n.kind == 'stmt' and isinstance(n.ast, ast.Assign) and isinstance(n.ast.value, ast.Call)
-              and isinstance(n.ast.value.func, ast.Attribute) and n.ast.value.func.attr == 'strip'
-              and n.ast.value.args and isinstance(n.ast.value.args[0], ast.Constant) and set(n.ast.value.args[0].value) == set(b'\r\n')]
-    if not apps:
+    gnode, _inl = normalize.inline_helpers(g, depth=2)
+    gloops = [s_ for s_ in gnode.body if isinstance(s_, ast.For) and norm(s_.iter) == g.params()[0]]
+    if len(gloops) != 1 or not isinstance(gloops[0].target, ast.Name):
+        raise AnalysisError('%s: the loop over the input lines was not found' % g.site)
+    gloop = gloops[0]
+    raw = gloop.target.id
+    rets = [r_ for r_ in ast.walk(gnode) if isinstance(r_, ast.Return) and isinstance(r_.value, ast.Tuple) and len(r_.value.elts) == 3]
+    payloads = {norm(r_.value.elts[1]) for r_ in rets}
+    if len(payloads) != 1:
+        raise AnalysisError('%s: the payload list (second element of the result) is not a single local' % g.site)
+    payload = payloads.pop()
+    consts = paths.module_consts(g.module, 'Deb822')
+
+    def dict_default(e):
+        # {}.get(key, default) is the default
+        if isinstance(e, ast.Call) and isinstance(e.func, ast.Attribute) and e.func.attr == 'get' and isinstance(e.func.value, ast.Dict) \
+                and not e.func.value.keys and len(e.args) == 2 and isinstance(e.args[1], ast.Constant):
+            return bool(e.args[1].value)
+        return None
+    body_paths = paths.Enumerator(paths.Folder(consts, dict_default)).run(gloop.body, [paths.Path()])
+    rep.analysed['paths'] += len(body_paths)
+    napp, bad_strip, bad_enc = 0, None, None
+
+    def type_lit(p_, var):
+        """True: the path has decided that var is str; False: that it is not str (bytes); None: undecided"""
+        for t_, pol in p_.conds:
+            if isinstance(t_, ast.Call) and norm(t_.func) == 'isinstance' and len(t_.args) == 2 and norm(t_.args[0]) == var:
+                if norm(t_.args[1]) == 'str':
+                    return pol
+                if norm(t_.args[1]) == 'bytes':
+                    return not pol
+        return None
+    for p_ in body_paths:
+        for ev in p_.events:
+            if ev[0] != 'effect' or not isinstance(ev[1], ast.Expr) or not isinstance(ev[1].value, ast.Call):
+                continue
+            c = ev[1].value
+            if norm(c.func) != payload + '.append' or len(c.args) != 1:
+                continue
+            napp += 1
+            x = c.args[0]
+            if not (isinstance(x, ast.Call) and isinstance(x.func, ast.Attribute) and x.func.attr in ('strip', 'rstrip') and len(x.args) == 1
+                    and isinstance(x.args[0], ast.Constant) and isinstance(x.args[0].value, (bytes, str)) and set(x.args[0].value) in (set(b'\r\n'), set('\r\n'))):
+                bad_strip = 'on the path [%s] the payload line is %s' % (p_.describe()[:120], norm(x)[:60])
+                continue
+            y = x.func.value
+            is_str = type_lit(p_, raw)
+            if isinstance(y, ast.Call) and isinstance(y.func, ast.Attribute) and y.func.attr == 'encode' and norm(y.func.value) == raw:
+                if is_str is not True:
+                    bad_enc = 'encode() is applied to a line not known to be str on the path [%s]' % p_.describe()[:120]
+            elif norm(y) == raw:
+                if is_str is not False:
+                    bad_enc = 'a line that may be str reaches the bytes regexes unencoded on the path [%s]' % p_.describe()[:120]
+            else:
+                bad_enc = 'the payload line is derived from %s, not from the input line' % norm(y)[:60]
+    if not napp:
         raise AnalysisError('%s: no payload append found' % g.site)
-    good = bool(strips)
-    for a in apps:
-        an = G.node_for(a)
-        if not strips or not any(G.dominates(s.id, an.id) and norm(s.ast.targets[0]) == norm(a.args[0]) for s in strips):
-            good = False
-    if good:
-        rep.ok('C02.R2', g.site, 'payload lines are stripped of CR/LF', '%s dominates lines.append' % norm(strips[0].ast))
+    if bad_strip is None:
+        rep.ok('C02.R2', g.site, 'payload lines are stripped of CR/LF', '%d append path(s), each appends <line>.strip(b"\\r\\n")' % napp)
     else:
         rep.fail('C02.R2', g.site, 'payload lines are stripped of CR/LF',
-                 'a payload line reaches the parser with its line terminator (list-of-lines and file input would differ)', where=g.where)
-    enc = [n for n in ast.walk(g.node) if isinstance(n, ast.If) and norm(n.test).startswith('isinstance(') and 'str' in norm(n.test)
-           and any(isinstance(c, ast.Call) and isinstance(c.func, ast.Attribute) and c.func.attr == 'encode' for s in n.body for c in ast.walk(s))]
-    if enc:
-        rep.ok('C02.R2', g.site, 'text lines are encoded', norm(enc[0].test), nontrivial=False)
+                 'a payload line reaches the parser with its line terminator (list-of-lines and file input would differ): ' + bad_strip, where=g.where)
+    if bad_enc is None and bad_strip is None:
+        rep.ok('C02.R2', g.site, 'text lines are encoded', 'str → encode(), bytes unchanged, on every append path', nontrivial=False)
+    elif bad_enc is not None:
+        rep.fail('C02.R2', g.site, 'text lines are encoded', 'str lines are not converted to bytes before the bytes regexes are applied: ' + bad_enc, where=g.where)
+    # blank-line rule selection: the regex used as paragraph separator, per value of the strictness switch
+    pre = gnode.body[:gnode.body.index(gloop)]
+    pre_paths = [p_ for p_ in paths.Enumerator(paths.Folder(consts, dict_default)).run(pre, [paths.Path()]) if p_.outcome is None]
+    sel = {}
+    for p_ in pre_paths:
+        pol = None
+        for t_, v_ in p_.conds:
+            if isinstance(t_, ast.Call) and isinstance(t_.func, ast.Attribute) and t_.func.attr == 'get' and t_.args \
+                    and isinstance(t_.args[0], ast.Constant) and t_.args[0].value == 'whitespace-separates-paragraphs':
+                default = bool(t_.args[1].value) if len(t_.args) > 1 and isinstance(t_.args[1], ast.Constant) else False
+                if default is not True:
+                    pol = 'bad-default'
+                elif pol is None:
+                    pol = v_
+        if pol is None:
+            # the switch was folded: an empty/absent strict dict means the default (True)
+            pol = True
+        regs = set()
+        for nm, v in p_.env.items():
+            if nm.startswith('@'):
+                continue
+            e_ = v
+            name_ = e_.attr if isinstance(e_, ast.Attribute) else e_.id if isinstance(e_, ast.Name) else None
+            if name_ is None:
+                continue
+            try:
+                r_ = src.regex('deb822', name_, cls='Deb822')
+            except AnalysisError:
+                continue
+            regs.add(name_)
+        sel.setdefault(pol, set()).update(regs)
+    ok_sel = set(sel) == {True, False} and all(len(v) == 1 for v in sel.values())
+    if ok_sel:
+        ws = M.L(next(iter(sel[True])), 'match')
+        nows = M.L(next(iter(sel[False])), 'match')
+        dom_ = M.pat(r'[^\n]*')        # the lines have been stripped of their terminator
+        ok_sel = ws.intersect(dom_).equiv_witness(M.pat(r'[^\S\n]*', re.ASCII)) is None and nows.intersect(dom_).equiv_witness(M.pat(r'')) is None
+    if ok_sel:
+        rep.ok('C02.R2', g.site, 'separator rule selection', 'default: whitespace lines separate (languages \\s* / empty)', nontrivial=False)
     else:
-        rep.fail('C02.R2', g.site, 'text lines are encoded', 'str lines are not converted to bytes before the bytes regexes are applied', where=g.where)
-    # blank-line rule selection
-    sel = [n for n in ast.walk(g.node) if isinstance(n, ast.If) and 'whitespace-separates-paragraphs' in norm(n.test)]
-    if len(sel) == 1 and '_blank_line_whitespace' in norm(sel[0].body[0]) and sel[0].orelse and '_blank_line_no_whitespace' in norm(sel[0].orelse[0]) \
-            and norm(sel[0].test).endswith(', True)'):
-        rep.ok('C02.R2', g.site, 'separator rule selection', 'default: whitespace lines separate', nontrivial=False)
-    else:
-        rep.fail('C02.R2', g.site, 'separator rule selection', 'the whitespace-separates-paragraphs switch does not select the two blank-line regexes as documented', where=g.where)
+        rep.fail('C02.R2', g.site, 'separator rule selection', 'the whitespace-separates-paragraphs switch does not select the two blank-line regexes as documented (%s)'
+                 % {str(k): sorted(v) for k, v in sel.items()}, where=g.where)
 
 
 def _unb(text):
